@@ -105,6 +105,9 @@ def specs_for(t, rnd):
                 if an in (0, 1000):
                     an = rnd.choice([250, 500, 750])
             text = fn_variant("hsla", [str(h), tenths(s10) + "%", tenths(l10) + "%", a_text(an, k)], k)
+            if k % 12 in (2, 8):
+                # the alpha after a slash (the parser's "slash for alpha"): hsla(h, s%, l% / a) - the same four values
+                text = f"hsla({h}, {tenths(s10)}%, {tenths(l10)}%{('/', ' / ', ' /')[k % 3]}{a_text(an, k)})"
             comp = {"kind": "hsl", "h": h, "s": s10, "l": l10, "an": an, "ad": 1000}
         if len(hist) < 60 and k % 7 != 3:
             hist.append((kind, fg, an, text, comp))
